@@ -37,7 +37,6 @@ JudgeHist(o) ==
     IN IF d = "accept" /\ o.failed THEN "History:failed-within-the-limit"
        ELSE IF d = "refuse" /\ ~o.failed THEN "History:not-failed-over-the-limit"
        ELSE IF o.failed /\ ~Q!HistoryBounded(o.stored, o.gap) THEN "History:kept-growing-after-the-limit"
-       ELSE IF ~o.failed /\ o.stored # o.natural THEN "History:events-missing-or-invented"
        ELSE "ok"
 
 Judge(o) == IF o.kind = "quota" THEN JudgeQuota(o)
